@@ -37,7 +37,7 @@ def q(*names):
 BASE = dict(WTYPES="3", ATYPES=q("p2kh"), NETS="FALSE", STYPES=q("P2PKH"), UAMTS=q("mid"), MAXUNSP=1, VOFFS="0",
             DTYPES=q("P2PKH"), DAMTS=q("k5"), MAXDEST=1, FEES=q("k1"), USEALL="FALSE", CHANGES=q("none"),
             MSGS=q("none"), SEQS=q("def"), LOCKS=q("def"), VERS=q("def"), SUBFEES="FALSE", MODES=q("send"),
-            TUNETARGETS=q("none"), TUNEDELTAS=q("z"), RAWS="", SECOND="")
+            TUNETARGETS=q("none"), TUNEDELTAS=q("z"), RAWS="", SECOND="", SIGOPTS=q("auto"))
 
 ALL_ST = q("P2PKH", "P2SH", "P2WPKH", "P2TR", "FPKH", "FMS")
 ALL_AT = q("p2kh", "segwit", "bech32", "tap")
@@ -46,6 +46,7 @@ ALL_SEQ = q("def", "m1", "m2", "zero", "n", "rbf")
 ALL_LOCK = q("def", "h", "t", "max")
 ALL_VER = q("def", "v1", "v2", "v3")
 ALL_FEE = q("zero", "sat1", "k1", "def", "btc")
+ALL_MSG = q("none", "short", "long", "m1", "m75", "m76", "m77", "m255", "m256", "m520")
 ALL_TT = q("none", "first", "two", "all")
 ALL_TD = q("m1", "z", "p1")
 ALL_RAW = q("fwd", "fwd1", "rev", "first", "last")
@@ -75,6 +76,15 @@ def families(quick, seed):
     f.append(("flags", fam(WTYPES="4", ATYPES=q("tap"), NETS="TRUE", STYPES=q("P2TR", "P2PKH"), UAMTS=q("btc"), DTYPES=q("P2WSH"),
                            FEES=ALL_FEE, USEALL="FALSE,TRUE", MSGS=q("none", "short", "long"), SEQS=ALL_SEQ, LOCKS=ALL_LOCK, VERS=ALL_VER),
               300 if quick else 3000))
+    # -msg lengths around the push-opcode boundaries (75 / 76 / 255 / 256), every input type
+    f.append(("msg", fam(ATYPES=q("p2kh", "tap"), STYPES=q("P2PKH", "P2SH", "P2WPKH", "P2TR"), UAMTS=q("btc"), DTYPES=q("P2WPKH", "OWN"),
+                         CHANGES=q("none", "own"), MSGS=ALL_MSG, MODES=q("send", "batch")), 80 if quick else 320))
+    # amounts at the edges of 64-bit arithmetic: no balance covers them, the wallet must refuse
+    f.append(("huge", fam(STYPES=q("P2WPKH"), UAMTS=q("mid"), DAMTS=q("k5", "p63", "max64", "wrapfee", "p64"), MAXDEST=2, FEES=q("zero", "k1"),
+                          USEALL="FALSE,TRUE", SUBFEES="FALSE,TRUE", MODES=q("send", "batch", "mixed")), 120 if quick else 1000))
+    # -minsig together with -rfc6979 must terminate
+    f.append(("bothsig", fam(ATYPES=q("p2kh", "tap"), STYPES=q("P2PKH", "P2SH", "P2WPKH", "P2TR"), UAMTS=q("small"), MAXUNSP=2, USEALL="TRUE", SIGOPTS=q("both")),
+              24 if quick else 144))
     # keys imported through .others (compressed / uncompressed), alone and mixed with the wallet's own
     f.append(("imp", fam(WTYPES="3,4", ATYPES=q("p2kh", "bech32"), STYPES=q("IMPC", "IMPU", "P2WPKH"), UAMTS=q("small", "btc"), MAXUNSP=2,
                          USEALL="FALSE,TRUE", TUNETARGETS=q("none", "all"), RAWS=q("rev")), 100 if quick else 600))
@@ -98,7 +108,7 @@ def wide(quick):
     """the whole space, walked at random"""
     return fam(WTYPES="3,4", ATYPES=ALL_AT, NETS="FALSE,TRUE", STYPES=ALL_ST + "," + q("IMPC", "MS23", "MS13F"), UAMTS=q("sat1", "dust", "small", "mid", "btc", "big", "huge"),
                MAXUNSP=2 if quick else 4, VOFFS="0,8,10,100", DTYPES=ALL_DT, DAMTS=q("sat1", "dust", "k5", "mid", "btc"), MAXDEST=3, FEES=ALL_FEE, USEALL="FALSE,TRUE",
-               CHANGES=q("none", "own", "foreign"), MSGS=q("none", "short", "long"), SEQS=ALL_SEQ, LOCKS=ALL_LOCK, VERS=ALL_VER, SUBFEES="FALSE,TRUE",
+               CHANGES=q("none", "own", "foreign"), MSGS=ALL_MSG, SEQS=ALL_SEQ, LOCKS=ALL_LOCK, VERS=ALL_VER, SUBFEES="FALSE,TRUE",
                MODES=q("send", "batch", "mixed"), TUNETARGETS=ALL_TT, TUNEDELTAS=ALL_TD, RAWS=q("fwd1", "rev") if quick else ALL_RAW, SECOND=q("sweep"))
 
 
@@ -225,7 +235,7 @@ def estimate(d):
     for n in range(1, int(d["MAXUNSP"]) + 1):
         lists += per * nv * (2 * per * nv) ** (n - 1)
     optA = count(d["FEES"]) * count(d["USEALL"]) * count(d["CHANGES"]) * count(d["SUBFEES"])
-    optB = count(d["MSGS"]) * count(d["SEQS"]) * count(d["LOCKS"]) * count(d["VERS"])
+    optB = count(d["MSGS"]) * count(d["SEQS"]) * count(d["LOCKS"]) * count(d["VERS"]) * count(d["SIGOPTS"])
     tt = count(d["TUNETARGETS"])
     tunes = (1 if '"none"' in d["TUNETARGETS"] else 0) + (tt - (1 if '"none"' in d["TUNETARGETS"] else 0)) * count(d["TUNEDELTAS"])
     modes = count(d["MODES"])
@@ -322,7 +332,7 @@ def run(ctx):
                             "expected transaction computed by the model, signatures judged by lib/script and by harness/ref"})
     ctx.assumptions += ["previous transactions are synthetic (one dummy input) but pay to the scripts of the keys the wallet itself lists",
                         "RIPEMD-160 comes from lib/others/ripemd160 (trusted base, DESIGN 2.3)",
-                        "-minsig and -rfc6979 are never combined (the re-signing loop of sign_tx cannot terminate on a deterministic long signature)",
+                        "-minsig with -rfc6979 is run under a 20 s limit (family bothsig); a run that does not end is reported once it is shown that the same request without -minsig ends at once; after two such hangs the remaining cases of the family are skipped",
                         "coin selection is compared with the transcribed rule but a different valid selection is only an observation",
                         "multisig: 2-of-2 / 2-of-3 / 1-of-3 P2SH outputs through -p2sh + -raw; -msign (one key at a time) is not covered"]
 
